@@ -9,7 +9,9 @@ position x how the victim is started x all short event histories, driven through
 same and to later events, a ColangError must be observable, nothing may escape process_events.
 Part G (two-flow fault families, incl. internal events sent with missing / ill-typed arguments), part R (periodic
 drives), part X (errors escaping run_to_completion), part P (ping-pong through the event cap).
-Parts E / V / D live in c10_more.py: error texts with special characters x error-reporting flows (library and
+Part S lives in c10_kinds.py (a faulty expression at every statement kind x every control-flow neighbourhood), parts A / B / Y
+in c10_shapes.py (activation in a sheltered position, faulty match inside a group, event shapes around the action-event
+naming convention).  Parts E / V / D live in c10_more.py: error texts with special characters x error-reporting flows (library and
 `escape(...)` idioms), the same under the library's verbose log handler, parameter defaults that raise x how the
 flow is started / restarted.
 """
@@ -864,6 +866,18 @@ def run(rep, tier):
         agg["events"] += a.get("events", 0)
         agg["fault_reached"] += a.get("fault_reached", 0)
         agg["bystander_reactions"] += a.get("bystander_reactions", 0)
+    # ---- part S (a faulty expression at every statement kind x every control-flow neighbourhood)
+    from vf.props import c10_kinds
+    sk = c10_kinds.run_kinds(rep, tier, par)
+    agg["events"] += sk["events"]
+    agg["fault_reached"] += sk["fault_reached"]
+    agg["bystander_reactions"] += sk["bystander_reactions"]
+    # ---- parts A / B / Y (activation in a sheltered position, faulty match inside a group, event shapes)
+    from vf.props import c10_shapes
+    sh = c10_shapes.run_shapes(rep, tier, par)
+    for a in sh.values():
+        agg["events"] += a.get("events", 0)
+        agg["bystander_reactions"] += a.get("bystander_reactions", 0)
     rep.set("active_flow_programs", act["programs"])
     rep.set("active_flow_histories", act["histories"])
     rep.set("fault_programs", agg["programs"])
@@ -921,10 +935,14 @@ def replay(rp):
         loop = asyncio.new_event_loop()
         hist = [{"type": t, "p": "x"} if t != "X" else {"type": "X"} for t in rp["history"]]
         try:
-            outs, _ = run_history(rt, hist, loop, 200000)
+            # (a run that never terminates keeps creating flow instances: every further step gets slower)
+            outs, _ = run_history(rt, hist, loop, 5000)
             print(rp["source"])
             for ev, o in zip(["<start>"] + rp["history"], outs):
                 print(ev, "->", o)
+        except seams.StepBudgetExceeded as e:
+            print(rp["source"])
+            print("history", rp["history"], ": step budget (5000 internal events within one run_to_completion) exceeded:", e)
         except Exception as e:
             print("raised", repr(e))
         print(rp["what"])
